@@ -157,13 +157,34 @@ INTEGRATION_VALUES = {
 NEEDS = {   # companion options required for a value to have any effect
     'playready__la_url': {'drm': 'playready'}, 'marlin__la_url': {'drm': 'marlin'}, 'clearkey__la_url': {'drm': 'clearkey'},
     'playready__version': {'drm': 'playready'}, 'playready__piff': {'drm': 'playready'}, 'bugs': {'drm': 'all'},
-    'failures': {'verr': '503=5', 'aerr': '503=5'}, 'frames': {'vcorrupt': '12:00:04Z'},
+    'failures': {'verr': '503=5', 'aerr': '503=5', 'terr': '503=2'}, 'frames': {'vcorrupt': '12:00:04Z'},
 }
 for _n in list(INTEGRATION_VALUES):
     if _n.startswith('ping__'):
         NEEDS[_n] = {'events': 'ping'}
     if _n.startswith('scte35__'):
         NEEDS[_n] = {'events': 'scte35'}
+
+
+# Which media types an option applies to, written down from the option's documented meaning and independent of the usage
+# masks in the registry (which are code under test: a mask that loses a bit would otherwise move the expectation with
+# it). Options that are not listed (new ones) fall back to their registered mask.
+_VAT, _VA = {'video', 'audio', 'text'}, {'video', 'audio'}
+APPLIES = {'start': _VAT, 'depth': _VAT, 'leeway': _VAT, 'drm': _VAT, 'bugs': _VAT, 'failures': _VAT,
+           'playready__la_url': _VA, 'marlin__la_url': _VA, 'clearkey__la_url': _VA, 'playready__version': _VA,
+           'playready__piff': _VA, 'events': _VA,
+           'verr': {'video'}, 'aerr': {'audio'}, 'terr': {'text'}, 'vcorrupt': {'video'}, 'frames': {'video'},
+           'acodec': {'audio'}}
+for _p in ('ping', 'scte35'):
+    for _f in ('count', 'duration', 'inband', 'interval', 'start', 'timescale', 'value', 'version'):
+        APPLIES[f'{_p}__{_f}'] = _VA
+APPLIES['scte35__program_id'] = _VA
+
+
+def applies(opt, mtype, use):
+    if opt.cgi_name in APPLIES:
+        return mtype in APPLIES[opt.cgi_name]
+    return (opt.usage & use) != 0
 
 
 # defaults stored with the stream (POST /stream/<pk>/defaults): both ends overlay them on the built-in defaults, so a value
@@ -266,7 +287,7 @@ def integration_item_(item, sdef):
                 if opt is None:
                     acc.violation(sig('forwarded-unknown-name', mtype), f'{url}: {what} URL of {rep.id} carries '
                                   f'unknown parameter {name!r}: {u}', rec)
-                elif (opt.usage & use) == 0:
+                elif not applies(opt, mtype, use):
                     acc.violation(sig('forwarded-not-applicable', name, mtype),
                                   f'{url}: {what} URL of {rep.id} carries {name}={params[name]!r} whose usage '
                                   f'{OptionUsage.to_string_set(opt.usage)} excludes {mtype}: {u}', rec)
@@ -280,7 +301,7 @@ def integration_item_(item, sdef):
             names = list(assign) + ([n for n in SDEF_NAMES if n not in assign] if sdef else [])
             for name in names:
                 opt = cgi_map.get(name)
-                if opt is None or (opt.usage & use) == 0 or got is None:
+                if opt is None or not applies(opt, mtype, use) or got is None:
                     continue
                 if mode != 'live' and name in ('start', 'depth', 'leeway', 'drift', 'time_value'):
                     continue
@@ -325,7 +346,7 @@ def plan(tier):
         for v in vals:
             a = dict(NEEDS.get(name, {}))
             if name == 'failures':
-                a = {'verr': '503=5', 'aerr': '503=5'}
+                a = {'verr': '503=5', 'aerr': '503=5', 'terr': '503=2'}
             a[name] = v
             singles.append(a)
     for t, m in templates:
